@@ -230,6 +230,28 @@ pub mod shims {
     #[verifier::external_body]
     pub fn json_csr(v: String) -> (r: JsonValue) ensures r.text@ == csr_json(v@) { unimplemented!() }
     impl JsonValue { #[verifier::external_body] pub fn to_string(&self) -> (r: String) ensures r@ == self.text@ { unimplemented!() } }
+    // acme_common::crypto::X509Certificate as far as request_certificate may use it on the downloaded body: from_pem reads the FIRST
+    // certificate of the text, to_pem writes that one certificate - a chain is not what comes back
+    pub struct OpenSslError { pub x: u8 }
+    impl From<OpenSslError> for Error { #[verifier::external_body] fn from(e: OpenSslError) -> Self { unimplemented!() } }
+    impl vstd::std_specs::convert::FromSpecImpl<OpenSslError> for Error {
+        open spec fn obeys_from_spec() -> bool { false }
+        open spec fn from_spec(e: OpenSslError) -> Self { arbitrary() }
+    }
+    pub struct X509 { pub id: Ghost<int> }
+    pub struct X509Certificate { pub inner_cert: X509 }
+    pub uninterp spec fn first_cert_of(pem: Seq<u8>) -> Option<int>;
+    pub uninterp spec fn cert_pem(id: int) -> Seq<u8>;
+    impl X509 {
+        #[verifier::external_body] pub fn to_pem(&self) -> (r: Result<Vec<u8>, OpenSslError>) ensures r matches Ok(v) ==> v@ == cert_pem(self.id@) { unimplemented!() }
+    }
+    impl X509Certificate {
+        #[verifier::external_body]
+        pub fn from_pem(pem_data: &[u8]) -> (r: Result<X509Certificate, Error>)
+            ensures match r { Ok(c) => first_cert_of(pem_data@) == Some(c.inner_cert.id@), Err(_) => first_cert_of(pem_data@) is None } { unimplemented!() }
+        #[verifier::external_body] pub fn expires_in(&self) -> Result<std::time::Duration, Error> { unimplemented!() }
+        #[verifier::external_body] pub fn subject_alt_names(&self) -> std::collections::HashSet<String> { unimplemented!() }
+    }
     // the CSR (acme_common Csr::new, unit x509): what it was built from
     pub struct Csr { pub key: Ghost<int>, pub dns: Ghost<Seq<Seq<char>>>, pub ip: Ghost<Seq<Seq<char>>> }
     pub uninterp spec fn csr_b64(c: Csr) -> Seq<char>;
